@@ -416,6 +416,28 @@ theorem code_szx_prefix_survives (fx : Fixes) (d : Bytes) (m m' : Machine)
       subst h
       rfl
 
+/-- **Defect #11 in SZX, whole file.** With the code as it is, whatever SZX file is loaded — any
+chunks, any order — the machine ends up in the middle of the prefix chain the *previous* program
+was executing: the pending prefix of the receiving CPU is that of the loaded machine. -/
+theorem code_szx_prefix_leaks (inflate : Bytes → Option Bytes) (f : Bytes) (r m : Machine)
+    (h : szxLoad Fixes.none inflate f r = .ok m) : m.cpu.pfx = r.cpu.pfx := by
+  unfold szxLoad at h
+  split at h
+  · cases h
+  split at h
+  · cases h
+  simp only at h
+  split at h
+  · cases h
+  split at h
+  · cases h
+  split at h
+  · cases h
+  · next m1 hw =>
+    cases h
+    rw [(refresh_same m1).1, szxWalk_pfx _ _ _ _ _ _ _ hw]
+    simp [Cpu.resetExec, Fixes.none]
+
 /-! ### non-vacuity -/
 
 /-- a small well-formed 128K zx-state file: header, Z80R (PC = 0x8000, IM 1), SPCR (border 2, latch 0x13) -/
